@@ -137,7 +137,9 @@ class Run:
             self._explanation = explanation
             return None
         wall = time.time() - self.t0
-        evdir = os.path.join(VERIF, 'evidence')
+        # developer tools (seed / mutant regressions on scratch worktrees) redirect the evidence so that a registered
+        # check's evidence file is only ever written from /repo itself
+        evdir = os.environ.get('VERIF_EVIDENCE_DIR') or os.path.join(VERIF, 'evidence')
         os.makedirs(evdir, exist_ok=True)
         total_inst = sum(self.instances.values())
         samples = []
@@ -179,7 +181,7 @@ class Run:
         for h in self.known_hits:
             print('KNOWN-FINDING: property=%s rule=%s %s %s: %s' % (self.prop, h['rule'], h['function'], h['loc'], h['msg']))
         if self.violations:
-            rdir = os.path.join(VERIF, 'evidence', 'replay')
+            rdir = os.path.join(evdir, 'replay')
             os.makedirs(rdir, exist_ok=True)
             for i, v in enumerate(self.violations):
                 p = os.path.join(rdir, '%s_%d.json' % (self.prop, i))
